@@ -79,7 +79,12 @@ RULE = (
     "variants, connect-back hanging, tracking retry scheduled); or stop() before login, "
     "while login() blocks, after a failed login, after frame k of a burst sent at 50 ms spacing (k = 0..9 exhaustive), "
     "right after login() returned, idle, with each kind of pending work, while the reconnect wait runs, after a requested "
-    "disconnect / server EOF, after an automatic re-login. The systematic part (every point x reason, both reconnect "
+    "disconnect / server EOF, after an automatic re-login, and inside an unrequested loss (RST): awaited by an application "
+    "listener of the CLOSING notification of the server connection, or by an application task k = 0..5 loop steps after that "
+    "notification, with and without an application listener that suspends for 8 loop steps and so stretches the window between "
+    "CLOSING and CLOSED. In every case an ordinary async application listener of SessionDestroyedEvent checks the session and "
+    "probes a command at delivery; in the server-unreachable loss cases it then suspends for 3 loop steps or 1 / 7 / 15 s (long "
+    "enough for refused reconnect attempts to report CLOSED again meanwhile). The systematic part (every point x reason, both reconnect "
     "settings; every port configuration x auto_join x invites) comes first, random combinations fill up. Every case ends "
     "with stop() and the stop rules. Non-trivial = at least one of the three monitors judged something; distinct = "
     "(settings signature, login mode, kind:point, reason)."
@@ -99,6 +104,12 @@ ASSUMPTIONS = [
     "within 1300 virtual seconds is counted (loss_unnoticed) and not judged. Expectations about reconnecting follow the "
     "INJECTED reason (server FIN = 'server-side EOF', requested = disconnect_server(); RST, ETIMEDOUT and a read timeout are "
     "unrequested losses), whatever reason the library derives; the derived reason is part of the witness.",
+    "At the moment SessionDestroyedEvent is delivered to an application listener the session is gone: client.session is None "
+    "and execute() raises InvalidSessionError (reading of 'destroyed exactly once ... commands are refused without a session'; "
+    "the unchanged library clears the session before it emits the event).",
+    "stop() inside a loss: the listener that stretches the CLOSING..CLOSED window suspends for loop steps only, so that the "
+    "close in progress completes within the instant in which stop() returns (a listener that lets virtual time pass would "
+    "keep the server endpoint open after stop() returned; whether that is the library's business is left open).",
     "Residue is looked at 1 s after the CLOSED notification (before the 5 s reconnect timeout). A user the transfer manager "
     "has a local reason to track (the peer of the pending download) is not counted as residue.",
     "Reconnect bound: connect attempt and Login frame within timeout + 1 s + 0.5 s (watchdog period) + 1 s slack after the "
@@ -134,11 +145,13 @@ MIN_OBS = {
     'quick': {'logins_judged': 150, 'required_frames_checked': 1800, 'losses_judged': 90, 'stops_judged': 250,
               'reconnects_judged': 90, 'execute_checks': 250, 'pending_work_kinds': len(PENDING_KINDS),
               'burst_cut_points': BURST_LEN + 1, 'burst_stop_points': BURST_LEN + 1, 'port_cfgs': len(PORT_CFGS),
-              'client_burst_cut_points': 10},
+              'client_burst_cut_points': 10, 'stops_inside_a_loss': 3, 'destroyed_listener_suspensions': 8,
+              'destroyed_deliveries_checked': 150},
     'thorough': {'logins_judged': 6000, 'required_frames_checked': 60000, 'losses_judged': 3500, 'stops_judged': 9000,
                  'reconnects_judged': 3500, 'execute_checks': 9000, 'pending_work_kinds': len(PENDING_KINDS),
                  'burst_cut_points': BURST_LEN + 1, 'burst_stop_points': BURST_LEN + 1, 'port_cfgs': len(PORT_CFGS),
-                 'client_burst_cut_points': 10},
+                 'client_burst_cut_points': 10, 'stops_inside_a_loss': 300, 'destroyed_listener_suspensions': 300,
+                 'destroyed_deliveries_checked': 6000},
 }
 SHARD_TIMEOUT = {'quick': 600, 'thorough': 5400}
 N_TOTAL = {'quick': 1200, 'thorough': 60000}
@@ -150,6 +163,8 @@ WHAT_FAILS = {
     'login:contradicting:': 'a frame contradicting the settings was sent to the server after a successful login',
     'execute-without-session:': 'client.execute() without a session did not raise InvalidSessionError / wrote to the server',
     'loss:session-destroyed-count:': 'number of SessionDestroyedEvents for a lost session is not exactly one',
+    'loss:session-set-when-destroyed-event-delivered': 'client.session is still set while SessionDestroyedEvent is delivered '
+                                                       'to the listeners',
     'loss:destroyed-before-closed': 'SessionDestroyedEvent emitted before the CLOSED notification of the server connection',
     'loss:residue:': 'server-derived state left after the server connection closed',
     'loss:residue:tracking:reset-while-sending': 'the connection is lost inside the dispatch of SessionInitializedEvent (a '
@@ -214,7 +229,17 @@ LOSS_REASONS = {
     'pending': ('eof', 'rst', 'etimedout', 'requested'),
 }
 STOP_POINTS = ('before-login', 'during-login', 'failed-login:reject', 'failed-login:garbage', 'failed-login:other',
-               'burst', 'inflight', 'idle', 'pending', 'reconnect-wait', 'after-requested', 'after-eof', 'relogged')
+               'burst', 'inflight', 'idle', 'pending', 'reconnect-wait', 'after-requested', 'after-eof', 'relogged',
+               'in-loss', 'in-loss')
+IN_LOSS_STEPS = 6                # stop() k = 0..5 loop steps after the CLOSING notification of an unrequested loss
+# how long the application's (async) listener of SessionDestroyedEvent suspends: loop steps or virtual seconds
+SUSPENSIONS = (['y', 3], ['s', 1.0], ['s', 7.0], ['s', 15.0])
+
+
+def in_loss_variant(rng: random.Random) -> dict:
+    if rng.random() < 0.3:
+        return {'via': 'listener', 'stretch': 0}
+    return {'via': 'task', 'stretch': rng.choice((0, 8))}
 
 
 def cases(tier: str, seed: int) -> list[dict]:
@@ -252,6 +277,11 @@ def cases(tier: str, seed: int) -> list[dict]:
             add('stop', 'pending', work=work, auto=auto)
     add('stop', 'reconnect-wait', auto=True)
     add('stop', 'relogged', auto=True)
+    for auto in (True, False):
+        add('stop', 'in-loss', 'rst', auto=auto, via='listener', stretch=0)
+        for stretch in (0, 8):
+            for k in range(IN_LOSS_STEPS):
+                add('stop', 'in-loss', 'rst', k=k, auto=auto, via='task', stretch=stretch)
     for k in range(BURST_LEN + 1):
         add('stop', 'burst', k=k)
     # -- loss block -----------------------------------------------------------------------------------
@@ -266,6 +296,8 @@ def cases(tier: str, seed: int) -> list[dict]:
             add('loss', 'client-burst', 'reset-while-sending', k=k, auto=auto)
     for reason in LOSS_REASONS['idle-down']:
         add('loss', 'idle-down', reason, auto=True)
+        for susp in SUSPENSIONS:
+            add('loss', 'idle-down', reason, auto=True, susp=list(susp))
     n = 0
     for work in PENDING_KINDS:
         for reason in LOSS_REASONS['pending']:
@@ -283,9 +315,14 @@ def cases(tier: str, seed: int) -> list[dict]:
         rng = random.Random(f'{seed}:{ID}:pick:{i}')
         if rng.random() < 0.5:
             point = rng.choice(STOP_POINTS)
-            add('stop', point, k=rng.randint(0, BURST_LEN) if point == 'burst' else None,
-                work=rng.choice(PENDING_KINDS) if point == 'pending' else None,
-                **({'auto': True} if point in ('reconnect-wait', 'relogged') else {}))
+            extra = {'auto': True} if point in ('reconnect-wait', 'relogged') else {}
+            if point == 'in-loss':
+                extra = in_loss_variant(rng)
+                extra['auto'] = rng.random() < 0.8
+            add('stop', point, 'rst' if point == 'in-loss' else None,
+                k=(rng.randint(0, BURST_LEN) if point == 'burst' else
+                   rng.randrange(IN_LOSS_STEPS) if point == 'in-loss' and extra['via'] == 'task' else None),
+                work=rng.choice(PENDING_KINDS) if point == 'pending' else None, **extra)
         else:
             point = rng.choice(('pre-login', 'at-login', 'burst', 'burst', 'client-burst', 'client-burst', 'idle',
                                 'idle-down', 'pending', 'pending'))
@@ -293,7 +330,8 @@ def cases(tier: str, seed: int) -> list[dict]:
                 k=(rng.randint(0, BURST_LEN) if point == 'burst' else
                    rng.randint(1, CLIENT_BURST_MAX) if point == 'client-burst' else None),
                 work=rng.choice(PENDING_KINDS) if point == 'pending' else None,
-                **({'auto': True} if point == 'idle-down' else {}))
+                **({'auto': True, 'susp': list(rng.choice(SUSPENSIONS + (None,)) or []) or None}
+                   if point == 'idle-down' else {}))
     return out
 
 
@@ -570,6 +608,65 @@ def run_case(params: dict) -> dict:
         keep.append(closed_last)
         client.events.register(ConnectionStateChangedEvent, closed_last, priority=10 ** 6)
 
+        def server_state_first(ev):
+            # first listener of every state change of the server connection
+            if not isinstance(ev.connection, ServerConnection):
+                return
+            if ev.state == ConnectionState.CLOSED:
+                st.setdefault('closed_first', []).append((now(), ev.close_reason.name if ev.close_reason else None))
+            elif ev.state == ConnectionState.CLOSING and st.get('closing_fut') is not None and not st['closing_fut'].done():
+                st['closing_reason'] = ev.close_reason.name if ev.close_reason else None
+                st['closing_fut'].set_result(None)
+        keep.append(server_state_first)
+        client.events.register(ConnectionStateChangedEvent, server_state_first, priority=-10 ** 6)
+
+        async def stretching_application_listener(ev):
+            # an application listener that suspends for some loop steps while the server connection is CLOSING
+            # (stretches the window between CLOSING and CLOSED without letting virtual time pass)
+            if st.get('stretch') and isinstance(ev.connection, ServerConnection) and ev.state == ConnectionState.CLOSING:
+                for _ in range(st['stretch']):
+                    await asyncio.sleep(0)
+        keep.append(stretching_application_listener)
+        client.events.register(ConnectionStateChangedEvent, stretching_application_listener, priority=10 ** 6 - 2)
+
+        async def stopping_application_listener(ev):
+            # an application that stops the client from inside its listener when the server connection starts closing
+            fn = st.get('stop_in_listener')
+            if fn is not None and isinstance(ev.connection, ServerConnection) and ev.state == ConnectionState.CLOSING:
+                st['stop_in_listener'] = None
+                st['closing_reason'] = ev.close_reason.name if ev.close_reason else None
+                await fn()
+        keep.append(stopping_application_listener)
+        client.events.register(ConnectionStateChangedEvent, stopping_application_listener)
+
+        async def destroyed_application_listener(ev):
+            # an ordinary (async) application listener: when the destroyed event is delivered the session is gone and
+            # commands are refused; it may suspend for loop steps / seconds before it returns
+            add('destroyed_deliveries_checked')
+            wit_ = {'t': now(), 'server_connection': client.network.server_connection.state.name,
+                    'closed_notifications_so_far': list(st.get('closed_first', []))[-4:]}
+            if client.session is not None:
+                violation('loss:session-set-when-destroyed-event-delivered', **wit_)
+            try:
+                await client.execute(JoinRoomCommand('zz-probe-in-listener'))
+                outcome = 'no-exception'
+            except InvalidSessionError:
+                outcome = 'refused'
+            except Exception as exc:  # noqa
+                outcome = 'raised-' + type(exc).__name__
+            if outcome != 'refused':
+                violation(f'execute-without-session:{outcome}', at='inside-a-listener-of-SessionDestroyedEvent', **wit_)
+            susp = cfg.get('susp')
+            if susp:
+                add('destroyed_listener_suspensions')
+                if susp[0] == 'y':
+                    for _ in range(int(susp[1])):
+                        await asyncio.sleep(0)
+                else:
+                    await asyncio.sleep(float(susp[1]))
+        keep.append(destroyed_application_listener)
+        client.events.register(SessionDestroyedEvent, destroyed_application_listener)
+
         async def slow_application_listener(ev):
             # an application that takes its time to handle the closing of the server connection ('-in-stop' kinds)
             if st.get('slow_close') and isinstance(ev.connection, ServerConnection) and ev.state == ConnectionState.CLOSING:
@@ -810,6 +907,12 @@ def run_case(params: dict) -> dict:
                      state=client.network.server_connection.state.name)
                 return
             t_closed, derived = closed
+            # (a suspending listener delays the END of the CLOSED dispatch; the connection is CLOSED, and the reconnect
+            # timeout runs, from the first delivery on)
+            first = [x for x in st.get('closed_first', []) if x[0] >= t_inject]
+            t_done = t_closed
+            if first:
+                t_closed, derived = first[0]
             await settle(1.0)
             n_destr = n_events(SessionDestroyedEvent) - n_destr0
             n_sessions = n_events(SessionInitializedEvent) - n_destr0      # sessions not yet destroyed before the loss
@@ -818,6 +921,10 @@ def run_case(params: dict) -> dict:
             cover.append(('derived_close_reasons', f'{why}->{derived}'))
             wit = {'at': label, 'injected': why, 'derived_close_reason': derived, 't_inject': t_inject,
                    't_closed': t_closed, 'sessions_open_before_loss': n_sessions}
+            if cfg.get('susp'):
+                wit['destroyed_listener_suspends'] = cfg['susp']
+                wit['closed_dispatch_ended_at'] = t_done
+                wit['closed_notifications'] = list(st.get('closed_first', []))[:6]
             note('loss', **wit)
             if n_destr != min(1, max(0, n_sessions)):
                 violation(f'loss:session-destroyed-count:{n_destr}{"" if n_sessions else "-without-session"}:{why}',
@@ -906,14 +1013,41 @@ def run_case(params: dict) -> dict:
                               login_frames=logins_after()[:5])
 
         # -- the stop monitor ---------------------------------------------------------------------------------
-        async def stop_and_judge(label: str):
+        async def stop_and_judge(label: str, in_loss: Optional[dict] = None):
             at_return: list = []
 
             async def stopper():
+                st['state_at_stop'] = client.network.server_connection.state.name
                 await client.stop()
                 at_return.extend(describe(t) for t in library_tasks())
-            st['state_at_stop'] = client.network.server_connection.state.name
-            task = w.spawn(ME, stopper(), name='vf-stop')
+            if in_loss is None:
+                task = w.spawn(ME, stopper(), name='vf-stop')
+            else:
+                # stop() inside an unrequested loss: k loop steps after the CLOSING notification of the server connection
+                # (an application task), or awaited by an application listener of that notification
+                st['stretch'] = int(in_loss.get('stretch') or 0)
+                if in_loss['via'] == 'listener':
+                    stopped = w.loop.create_future()
+
+                    async def from_listener():
+                        await stopper()
+                        stopped.set_result(None)
+                    st['stop_in_listener'] = from_listener
+
+                    async def wait_stopped():
+                        await stopped
+                    task = w.spawn(ME, wait_stopped(), name='vf-stop')
+                else:
+                    st['closing_fut'] = w.loop.create_future()
+
+                    async def after_closing():
+                        await st['closing_fut']
+                        for _ in range(int(in_loss['k'])):
+                            await asyncio.sleep(0)
+                        await stopper()
+                    task = w.spawn(ME, after_closing(), name='vf-stop')
+                await asyncio.sleep(0)
+                inject(in_loss['reason'])
             done, _ = await asyncio.wait({task}, timeout=300.0)
             if not done:
                 info['stop_hung'] = {'at': label, 'library_tasks': [describe(t) for t in library_tasks()][:12]}
@@ -929,6 +1063,14 @@ def run_case(params: dict) -> dict:
             add('stops_judged')
             cover.append(('stop_points', label))
             wit = {'at': label, 't_stop': round(t_stop, 6)}
+            if in_loss is not None:
+                wit['server_connection_state_when_stop_was_called'] = st.get('state_at_stop')
+                wit['close_reason_of_the_loss'] = st.get('closing_reason')
+                wit['stop_issued'] = dict(in_loss)
+                cover.append(('in_loss_state_at_stop', f"{in_loss['via']}:k{in_loss.get('k')}:stretch{in_loss.get('stretch')}"
+                                                       f"->{st.get('state_at_stop')}"))
+                if st.get('state_at_stop') == 'CLOSING':
+                    add('stops_inside_a_loss')
             if at_return:
                 add('tasks_pending_at_the_very_return', len(at_return))
             open_now = w.net.open_transports(owner=ME)
@@ -1133,7 +1275,12 @@ def run_case(params: dict) -> dict:
                 elif point == 'after-eof':
                     inject('eof')
                     await settle(2.0)
-            await stop_and_judge(label)
+            if point == 'in-loss':
+                await stop_and_judge(label + f":{cfg.get('via')}:stretch{cfg.get('stretch')}",
+                                     in_loss={'via': cfg.get('via', 'task'), 'k': k or 0, 'stretch': cfg.get('stretch', 0),
+                                              'reason': reason or 'rst'})
+            else:
+                await stop_and_judge(label)
             await end_app_task()
             ltask = st.get('ltask')
             if ltask is not None:
@@ -1251,7 +1398,8 @@ def run_case(params: dict) -> dict:
     runner.add_cover(res, 'kinds', f'{kind}:{point}')
     if obs.get('logins_judged') or obs.get('losses_judged') or obs.get('stops_judged'):
         res['csigs'].append(f"{cfg_sig(cfg)}|{login_mode}|{kind}:{point}"
-                            f"{'' if k is None else ':' + str(k)}{'' if not work else ':' + work}|{reason}")
+                            f"{'' if k is None else ':' + str(k)}{'' if not work else ':' + work}|{reason}"
+                            f"|{cfg.get('susp') or ''}|{cfg.get('via') or ''}{cfg.get('stretch') if cfg.get('via') else ''}")
     res['sample'] = {'params': {x: params[x] for x in ('kind', 'point', 'reason', 'k', 'work', 'cfg')},
                      'start': info['start'], 'login_outcome': info['login_outcome'], 'trace': trace[:20]}
     return res
